@@ -821,7 +821,7 @@ func (w *c35World) apply(m c35Msg, judge bool) (outcome string) {
 	if m.NoDetails {
 		toks = map[string]bool{}
 	}
-	fromLH := w.isLH(s) // configured lighthouse under the configuration loaded last
+	fromLH := w.isLH(s)         // configured lighthouse under the configuration loaded last
 	claimOwn := len(claim) == 0 // ◊ weak reading: an update naming several addresses is the sender's if any of them is
 	for _, a := range claim {
 		if c35In(a, s.Addrs) {
@@ -888,7 +888,7 @@ func (w *c35World) apply(m c35Msg, judge bool) (outcome string) {
 	detail := func(extra map[string]any) map[string]any {
 		d := map[string]any{"receiver": w.role.Name, "history": append([]string(nil), w.hist...), "sender_vpn_addrs": fmt.Sprint(s.Addrs),
 			"configured_lighthouses": fmt.Sprint(w.lhSet),
-			"message": m.String(), "payload_hex": fmt.Sprintf("%x", payload), "outcome": outcome, "cache_before": before, "cache_after": after}
+			"message":                m.String(), "payload_hex": fmt.Sprintf("%x", payload), "outcome": outcome, "cache_before": before, "cache_after": after}
 		for k, v := range extra {
 			d[k] = v
 		}
@@ -1370,6 +1370,7 @@ func TestVerifC35(t *testing.T) {
 	if c.OutOfTime() {
 		c.Capped("time budget (history phase)")
 	}
+	c.Set("time_budget_reached", c.OutOfTime())
 	c.Set("histories", perRole)
 	c.Set("history_depth", depth)
 	c.Set("guards", stats.n)
